@@ -2,10 +2,17 @@
    Proved for ALL positions (no well-formedness needed): the engine's two legality paths (filter with is_legal /
    try make_search_move and reject) accept exactly the same generated moves, for both generators; every generated
    en-passant move carries the capture flag.
-   The full statement (exactness w.r.t. the rules for every legal position) is kept visible as C01_full: it is NOT assumed
-   anywhere; it is decided on every run by the extracted monitors applied to the engine's answers (checks/chesscore.py). *)
+   SOUNDNESS w.r.t. the rules, proved for every position satisfying the invariant legal_inv (executable form legal_inv_b): every
+   generated move -- of either generator -- that make_search_move accepts (equivalently: that is_legal accepts) is one of the
+   legal moves of the rules, ChessSpec.legal_moves (abs g) (C01_accepted_moves_are_legal): pseudo-legality of every generated move
+   (pawn pushes / captures / en passant / promotions on the last rank only, knight, king incl. all castling preconditions, sliders)
+   through the equality of the model's attack sets with the specification's attack relations (Proofs/AttackSpec.v: sliders by a
+   generic characterisation plus a kernel-evaluated geometry check over 64 x 64 pairs; attacked = is_square_attacked;
+   in_check = in_check_raw), and 'own king not attacked afterwards' through the placement refinement of C02.
+   COMPLETENESS (no legal move is missing, no duplicates) is kept visible in C01_full: it is NOT assumed anywhere; it is decided on
+   every run by the extracted monitors applied to the engine's answers (checks/chesscore.py). *)
 From Coq Require Import NArith List Bool.
-From JV Require Import Model.Chess Model.Abs Spec.ChessSpec Proofs.MoveGenProofs.
+From JV Require Import Model.Chess Model.Abs Spec.ChessSpec Proofs.MoveGenProofs Proofs.LegalInv Proofs.LegalInvB Proofs.AttackSpec Proofs.Soundness.
 
 Theorem C01_legality_paths_agree : forall g all,
   filter (is_legal g) (generate_moves g all) = filter (made g) (generate_moves g all).
@@ -17,11 +24,28 @@ Proof. exact is_legal_made. Qed.
 Theorem C01_generated_flags : forall g all, forallb flag_ok (generate_moves g all) = true.
 Proof. exact generated_flag_ok. Qed.
 
+(* soundness w.r.t. the rules of chess *)
+Theorem C01_accepted_moves_are_legal : forall g all m g', legal_inv g -> In m (generate_moves g all) ->
+  make_search_move g m = Made g' -> In (umove m) (ChessSpec.legal_moves (abs g)).
+Proof. exact accepted_in_legal_moves. Qed.
+
+Theorem C01_generated_moves_are_pseudo_legal : forall g all m, legal_inv g -> In m (generate_moves g all) ->
+  pseudo (abs g) (umove m) = true.
+Proof. exact pseudo_ok. Qed.
+
+(* the check test of the specification is the check test of the model *)
+Theorem C01_in_check_is_in_check : forall g c, legal_inv g ->
+  ChessSpec.in_check (board (abs g)) c = in_check_raw (bbs g) (aocc g) (wb c).
+Proof. intros g c (C & KG & R & _). exact (in_check_model g c C R KG). Qed.
+
 (* the full property, as the monitors state it (visible, not assumed, not yet proved for all wf positions) *)
 Definition C01_full : Prop := forall g, wf g = true ->
   mon_legal_set g (legal_values g (generate_moves g true)) = true /\
   mon_capture_set g (legal_values g (generate_moves g false)) = true.
 
 Print Assumptions C01_legality_paths_agree.
+Print Assumptions C01_accepted_moves_are_legal.
+Print Assumptions C01_generated_moves_are_pseudo_legal.
+Print Assumptions C01_in_check_is_in_check.
 Print Assumptions C01_is_legal_iff_made.
 Print Assumptions C01_generated_flags.
